@@ -15,7 +15,7 @@ E == Trace[l]
 Ids6 == <<"c1", "c2", "c3", "c4", "c5", "c6">>
 
 (* the MUC part of C06 leaves the pure membership / callback clauses to C18 *)
-Ignored == IF "C06Only" \in Dev THEN {"C18_JoinedIffIn", "C18_Me", "C18_InviteExactlyOnce", "C18_ForeignIgnored"} ELSE {}
+Ignored == IF "C06Only" \in Dev THEN {"C18_JoinedIffIn", "C18_Me", "C18_InviteExactlyOnce", "C18_DirectInviteExactlyOnce", "C18_ForeignIgnored"} ELSE {}
 
 TInit == t0 \in Starts /\ l = t0 /\ Init
 
@@ -23,11 +23,12 @@ TrReset == l = t0 /\ IsEv("reset") /\ UNCHANGED ovars
 TrCall == IsEv("call") /\ E.c \in CallSet /\ OCall(E.c, E.kind, E.r) /\ UNCHANGED nenv
 TrWire == IsEv("wire") /\ E.c \in CallSet /\ OWire(E.c) /\ UNCHANGED nenv
 TrCancel == IsEv("cancel") /\ E.c \in CallSet /\ OCancel(E.c) /\ UNCHANGED nenv
-TrSend == IsEv("send") /\ OSend(E.st) /\ UNCHANGED nenv
+TrSend == IsEv("send") /\ OSend(E.st, E.part) /\ UNCHANGED nenv
+TrRest == IsEv("rest") /\ Partial /\ ORest /\ UNCHANGED nenv
 TrHandled == IsEv("handled") /\ OHandled([ty |-> E.ty, room |-> E.room, nick |-> E.nick, call |-> E.call]) /\ UNCHANGED nenv
 TrRet == IsEv("ret") /\ E.c \in CallSet /\ ORet(E.c, E.o, E.cond) /\ UNCHANGED nenv
 TrObs == IsEv("obs") /\ OObs(E.r, E.j, E.me, E.addr) /\ UNCHANGED nenv
-TrInviteCb == IsEv("invite_cb") /\ OInviteCb /\ UNCHANGED nenv
+TrInviteCb == IsEv("invite_cb") /\ OInviteCb([kind |-> E.kind, ns |-> E.ns, k |-> E.k, pw |-> E.pw, room |-> E.room]) /\ UNCHANGED nenv
 TrUserPres == IsEv("userpres") /\ OUserPres /\ UNCHANGED nenv
 TrQuiet == IsEv("quiet") /\ OQuiet /\ UNCHANGED nenv
 TrServeRet == IsEv("serve_ret") /\ UNCHANGED ovars
@@ -38,7 +39,7 @@ TrEnd == IsEv("end") /\ Quiescent /\ UNCHANGED ovars
 
 TNext ==
   /\ l < EndOf(t0)
-  /\ \/ TrReset \/ TrCall \/ TrWire \/ TrCancel \/ TrSend \/ TrHandled \/ TrRet \/ TrObs
+  /\ \/ TrReset \/ TrCall \/ TrWire \/ TrCancel \/ TrSend \/ TrRest \/ TrHandled \/ TrRet \/ TrObs
      \/ TrInviteCb \/ TrUserPres \/ TrQuiet \/ TrServeRet \/ TrNote \/ TrEnd
   /\ UNCHANGED <<t0, mvars>>
   /\ viol' \subseteq Ignored
